@@ -272,7 +272,7 @@ Definition parse_token (t : text) : pr token :=
       | POk id r => POk (THash id) r
       | PPanic s => PPanic s
       | PFuel => PFuel
-      | PFail => POk (TDelim 35) rest          (* sic: '#' is not consumed *)
+      | PFail => POk (TDelim 35) r1
       end
     else if x =? 59 then POk TSemicolon r1
     else if x =? 40 then POk TOpenRound r1
@@ -329,9 +329,10 @@ Definition parse_token (t : text) : pr token :=
   end.
 
 Definition is_semicolon (k : token) : bool := match k with TSemicolon => true | _ => false end.
+Definition is_close_brace (k : token) : bool := match k with TCloseBrace => true | _ => false end.
 Definition parse_token_not_semicolon (t : text) : pr token :=
   match parse_token t with
-  | POk tok rest => if is_semicolon tok then PFail else POk tok rest
+  | POk tok rest => if is_semicolon tok || is_close_brace tok then PFail else POk tok rest
   | other => other
   end.
 
@@ -598,7 +599,7 @@ Definition nth_full (t : text) : pr (Z * Z) :=
   pdo (b_val, r6) <- digit1 r5 [];
   match (match a_opt with Some d => i32_of_digits d | None => Some 1%Z end), i32_of_digits b_val with
   | Some a, Some b => POk ((a * a_sign)%Z, (b * b_sign)%Z) r6
-  | _, _ => PPanic 50
+  | _, _ => PFail
   end.
 Definition nth_a_only (t : text) : pr (Z * Z) :=
   let '(a_sign, r1) := opt_sign t in
@@ -606,14 +607,14 @@ Definition nth_a_only (t : text) : pr (Z * Z) :=
   pdo (_, r3) <- ptag [110] r2;
   match (match a_opt with Some d => i32_of_digits d | None => Some 1%Z end) with
   | Some a => POk ((a * a_sign)%Z, 0%Z) r3
-  | None => PPanic 50
+  | None => PFail
   end.
 Definition nth_b_only (t : text) : pr (Z * Z) :=
   let '(b_sign, r1) := opt_sign t in
   pdo (b_val, r2) <- digit1 r1 [];
   match i32_of_digits b_val with
   | Some b => POk (0%Z, (b * b_sign)%Z) r2
-  | None => PPanic 50
+  | None => PFail
   end.
 
 Definition parse_nth_child_args (t : text) : pr comp :=
@@ -643,7 +644,7 @@ Definition parse_ws (t : text) : pr unit := pmap (fun _ => tt) (many1 match_whit
 
 Definition parse_simple_selector_component (t : text) : pr comp :=
   palt (pdo (_, r) <- ptag [62] (skip_ws t); POk CCombChild (skip_ws r)) (fun _ =>
-  palt (pdo (_, r) <- ptag [42] (skip_ws t); POk CStar (skip_ws r)) (fun _ =>
+  palt (pdo (_, r) <- ptag [42] t; POk CStar r) (fun _ =>
   palt (pmap (fun _ => CCombDescendant) (parse_ws t)) (fun _ =>
   palt (parse_class t) (fun _ =>
   palt (parse_hash t) (fun _ =>
@@ -740,8 +741,14 @@ Definition parse_at_rule (t : text) : pr unit :=
   pdo (_, r2) <- parse_ident (skip_ws r1);
   skip_to_end_of_statement r2.
 
+Definition skip_unparsable_ruleset (t : text) : pr unit :=
+  pdo (_, rest) <- skip_to_end_of_statement t;
+  if Nat.eqb (length rest) (length t) then PFail else POk tt rest.
+
 Definition parse_statement (t : text) : pr (option cssruleset) :=
-  palt (pmap Some (parse_ruleset t)) (fun _ => pmap (fun _ => None) (parse_at_rule t)).
+  palt (pmap Some (parse_ruleset t)) (fun _ =>
+  palt (pmap (fun _ => None) (parse_at_rule t)) (fun _ =>
+  pmap (fun _ => None) (skip_unparsable_ruleset t))).
 
 Definition parse_stylesheet (t : text) : pr (list cssruleset) :=
   pdo (items, rest) <- many0 parse_statement t;
